@@ -59,6 +59,8 @@ def parseIn (api : String) (isRec : Bool) (nr0 : Nat) (rank : Nat) (ws : List St
       else if api == "create" || api == "open" then some { metaArg := 1 }
       else if api == "enddef_" then
         (if k == "einval" then some { metaErr := 36 } else if k == "multi" then some { metaArg := 1 } else none)
+      else if api.startsWith "meta_" then
+        (if k == "badname" then some { metaErr := 59 } else none)
       else if api == "rename_var" then
         (if k == "badname" then some { metaErr := 59 } else if k == "multi" then some { metaArg := 1 } else none)
       else (argErrOf k).map fun e => { cls := .argErr e }
@@ -74,6 +76,9 @@ def parseIn (api : String) (isRec : Bool) (nr0 : Nat) (rank : Nat) (ws : List St
       let how := (ws[3]?).getD "all"
       some { nPut := np, nGet := ng, maxRec := if isRec && np > 0 then nr0 + rank * 4 + np else 0,
              waitErr := how == "bad" }
+  | some "M" =>
+      let n (i : Nat) : Nat := natOr ws[i]? 0
+      some { margs := { name := n 1, name2 := n 2, ident := n 3, xtype := n 4, len := n 5, vals := n 6 } }
   | some "I" => some {}
   | some "-" => some {}
   | _ => none
@@ -118,6 +123,15 @@ def parseApi (api : String) (isRec : Bool) (L : Layout) : Option Api :=
     | "create" => some .create
     | "open" => some (.openFile 1)
     | "rename_var" => some .renameVar
+    | "meta_putatt" => some (.metaCall .putAtt)
+    | "meta_defdim" => some (.metaCall .defDim)
+    | "meta_defvar" => some (.metaCall .defVar)
+    | "meta_renamedim" => some (.metaCall .renameDim)
+    | "meta_renameatt" => some (.metaCall .renameAtt)
+    | "meta_delatt" => some (.metaCall .delAtt)
+    | "meta_copyatt" => some (.metaCall .copyAtt)
+    | "meta_setfill" => some (.metaCall .setFill)
+    | "meta_defvarfill" => some (.metaCall .defVarFill)
     | _ => none
 
 /-- length of the longest common prefix along which all ranks move together -/
@@ -153,7 +167,7 @@ def doCase (line : String) : String :=
                             vardGuard := rpc[4]? == some '1' }
       let L := parseLayout ((kvOf ws "lay").getD "")
       let cfg : Cfg := { safe := kvNat ws "safe" 0 == 1, hcoll := kvNat ws "hcoll" 0 == 1, aggr := kvNat ws "aggr" 0 == 1,
-                         indep := kvNat ws "indep" 0 == 1 || api == "end_indep", indef := api == "close_def",
+                         indep := kvNat ws "indep" 0 == 1 || api == "end_indep", indef := api == "close_def" || (api.startsWith "meta_" && kvNat ws "dm" 0 == 0),
                          numrecs := nr0 }
       match parseApi api isRec L with
       | none => id ++ " bad-api"
